@@ -6,6 +6,8 @@ import CifModel.Lemmas.StoreRefineQ
 import CifModel.Lemmas.StoreRefineS
 import CifModel.Lemmas.StoreRefineR
 import CifModel.Lemmas.StoreRefineC
+import CifModel.Lemmas.StoreTotalS
+import CifModel.Lemmas.StoreCodes
 /-
   Property C04 — the managed CIF behaves as the documented data model under any API history.
 
@@ -657,8 +659,7 @@ theorem C04_refines_create_loop (d d' : Db) (cid : Nat) (cat : Option Str) (name
     end — the given values, the unknown value for the items the packet omits (`packetFor`, which is the packet of
     `Loop.specAddPacket`: `C04_add_packet_is_spec_packet`) — and every other loop of the CIF, blocks and frames are what they
     were.  Hypothesis beyond `Inv`: `RowsBelow` (stored row numbers ≤ last_row_num; not yet part of `Inv`).
-    At the level of `abs` this is the documented behaviour even for packets that omit items: F30 (nothing is STORED for them)
-    only shows when the items that did get a value are removed later (`C04_cex_F30`). -/
+    Since fix e266ec6 the omitted items are also STORED as unknown (`C04_add_packet_total`; before: `C04_cex_F30_pinned`). -/
 theorem C04_refines_add_packet (d d' : Db) (l : LH) (pkt : List (Str × V)) (h : Inv d) (hrb : RowsBelow d l.cid l.loopNum)
     (hne : pkt ≠ []) (he : addPacketBody l pkt d = .ok (d', ())) :
     (∀ cid', absLoops d' cid' = (d.loops.filter (fun x => x.cid == cid')).map (fun x =>
@@ -667,6 +668,13 @@ theorem C04_refines_add_packet (d d' : Db) (l : LH) (pkt : List (Str × V)) (h :
         else absLoop d x)) ∧
     d'.frames = d.frames ∧ d'.blocks = d.blocks :=
   addPacket_refines d d' l pkt h hrb hne he
+
+/-- since fix e266ec6 (F30): the packet cif_loop_add_packet adds is TOTAL over the loop's items — every item has a STORED value in the
+    new row (the given one or the explicit unknown value), and that row is the loop's last_row_num -/
+theorem C04_add_packet_total (d d' : Db) (l : LH) (pkt : List (Str × V)) (he : addPacketBody l pkt d = .ok (d', ())) :
+    ∃ row, d'.lastRowNum l.cid l.loopNum = some row ∧ 0 < row ∧
+      ∀ i ∈ d'.loopItems l.cid l.loopNum, d'.hasValue l.cid i.name row = true :=
+  addPacket_total d d' l pkt he
 
 theorem C04_add_packet_is_spec_packet (norm : Str → Str) (d : Db) (x : LoopRow) (pkt : List (Str × V)) (hn : ItemsNormOK norm d) :
     packetFor d x.cid x.loopNum pkt =
@@ -701,7 +709,7 @@ theorem C04_refines_set_value (d : Db) (x : LoopRow) (i : ItemRow) (v : V) (h : 
 
 /-- C04_refines, loop level, proved for remove_item when other items stay in the loop (REMOVE_ITEM_SQL): provided every packet of
     the loop stores a value for every item (`hcomplete` — what the documentation promises; F30 breaks it and then packets vanish
-    here: `C04_cex_F30`), the loop keeps its category, loses the item's name and column and keeps every packet (same rows, same
+    here: `C04_cex_F30_pinned`), the loop keeps its category, loses the item's name and column and keeps every packet (same rows, same
     order, same other cells); every other loop of the CIF is what it was; loop, block and frame tables untouched. -/
 theorem C04_refines_remove_item (d : Db) (x : LoopRow) (i j0 : ItemRow) (h : Inv d) (hx : x ∈ d.loops)
     (hi : i ∈ d.loopItems x.cid x.loopNum) (hj0 : j0 ∈ d.loopItems x.cid x.loopNum) (hne0 : j0.name ≠ i.name)
@@ -866,7 +874,7 @@ def C04_refines_full : Prop :=
     ∃ row' ∈ d'.loops, row'.cid = l.cid ∧ row'.loopNum = l.loopNum ∧
       ((absLoop d row).specAddPacket norm pkt).toOption.map (·.packets.length) = some (absLoop d' row').packets.length
 
--- the two open findings, as counterexamples to the documented model (kernel-checked on the model of the CURRENT code)
+-- the two findings of this group (both repaired in /repo), as statements about the PINNED variants of the model
 private def nm (k : Str) : Name := { key := k, orig := k, valid := true }
 private def hist30 : List Op := [.cifNew, .mkBlock 0 (some (nm (a!"b"))), .mkLoop 0 (some (a!"cat")) [nm (a!"_a"), nm (a!"_b")],
   .addPkt 0 [(a!"_a", .na)], .rmItem 0 (some (nm (a!"_a")))]
@@ -876,10 +884,16 @@ private def countsAfter (ops : List Op) : List (Nat × Nat × Nat) :=
     | some s => (s.db.loops.length, s.db.items.length, s.db.values.length)
     | none => (0, 0, 0))
 
-/-- F30: create_loop(_a,_b); add_packet({_a}); remove_item(_a) — the model (= the C) ends with a loop `_b` WITHOUT packets, the
-    documented model keeps the packet (`_b` = unknown) -/
-theorem C04_cex_F30 :
-    countsAfter hist30 = [(1, 1, 0)] ∧
+/-- F30 (fixed by e266ec6), about the PINNED variant `addPacketBodyPinned`: create_loop(_a,_b); add_packet({_a}); remove_item(_a)
+    ended with a loop `_b` WITHOUT packets (no stored value); the documented model keeps the packet (`_b` = unknown) — and so does
+    the current model: one stored value is left (the unknown value FILL_PACKET_SQL recorded for `_b`) -/
+theorem C04_cex_F30_pinned :
+    (match (run {} [.cifNew, .mkBlock 0 (some (nm (a!"b"))), .mkLoop 0 (some (a!"cat")) [nm (a!"_a"), nm (a!"_b")]]).1.cifs with
+     | [some s] => (match addPacketBodyPinned { cid := 1, loopNum := 0, category := some (a!"cat") } [(a!"_a", .na)] s.db with
+        | .ok (d, _) => ((d.removeItem 1 (a!"_a")).values.length, (d.removeItem 1 (a!"_a")).items.length)
+        | .error _ => (99, 99))
+     | _ => (99, 99)) = (0, 1) ∧
+    countsAfter hist30 = [(1, 1, 1)] ∧
     (((({ category := some (a!"cat"), names := [a!"_a", a!"_b"], packets := [] } : Loop).specAddPacket id [(a!"_a", .na)]).toOption.bind
         (fun l => l.specRemoveItem id (a!"_a"))).map (fun l => l.packets.length)) = some 1 := by decide
 
@@ -895,5 +909,229 @@ theorem C04_cex_F34_pinned :
 -- non-vacuity of the invariant theorems: a history with failing and succeeding ops reaches a non-trivial state
 example : countsAfter [.cifNew, .mkBlock 0 (some (nm (a!"b"))), .mkLoop 0 none [nm (a!"_a"), nm (a!"_b")],
     .addPkt 0 [(a!"_a", .na), (a!"_b", .unk)], .addPkt 0 [(a!"_a", .na), (a!"_zz", .unk)], .setVal 0 (some (nm (a!"_s"))) none] = [(2, 3, 3)] := by decide
+
+
+-- ---- every packet has a value for every item of its loop (what fix e266ec6 of F30 established) ------------------------------------
+
+/-- the update in `op` (if it is one) goes through an iterator that is still attached to its loop: it stands on a packet the loop
+    has, and the names it took at cif_loop_get_packets are items of that loop.  cif.h promises nothing else: "behavior is undefined
+    if the underlying loop is accessed (even just for reading) other than via the iterator", and cif_loop_destroy invalidates "any
+    outstanding iterators over its contents". -/
+def UpdateAttached (w : World) (op : Op) : Prop :=
+  ∀ i p, op = .itUpd i p → ∀ e s, w.liveI i = some (e, s) → e.it.Attached s.db
+
+/-- Every op of a history keeps, in every managed CIF (content and every snapshot a rollback could restore), `Inv` and
+    PacketsTotal: every packet of every loop has a stored value for every item of the loop. -/
+theorem C04_packets_total_step (w : World) (op : Op) (h : WGood w) (hat : UpdateAttached w op) : WGood (step w op).1 := by
+  cases op with
+  | cifNew =>
+    intro c s hs
+    simp only [step] at hs
+    by_cases hc : c < w.cifs.length
+    · exact h c s (by simpa [List.getD, List.getElem?_append_left hc] using hs)
+    · have hge : w.cifs.length ≤ c := by omega
+      simp only [List.getD, List.getElem?_append_right hge] at hs
+      cases hi : c - w.cifs.length with
+      | zero => simp [hi] at hs; subst hs; exact GoodS.empty
+      | succ k => simp [hi] at hs
+  | cifDel c =>
+    simp only [step]
+    split
+    · exact h
+    · intro c' s hs
+      simp only [] at hs
+      rcases getD_set_any _ _ _ _ _ hs with hx | hx
+      · cases hx
+      · exact h c' s hx
+  | mkBlock c n =>
+    simp only [step]; split
+    · exact h.of_cifs rfl
+    · rename_i s hl; exact (h.setCif c _ (createBlock_goodS (h.live hl) n false)).of_cifs rfl
+  | getBlock c n =>
+    simp only [step]; split
+    · exact h.of_cifs rfl
+    · rename_i s hl; exact (h.setCif c _ (by rw [getBlock_fst]; exact h.live hl)).of_cifs rfl
+  | blocks c =>
+    simp only [step]; split
+    · exact h
+    · rename_i s hl; exact h.setCif c _ (h.live hl)
+  | mkFrame hh n =>
+    simp only [step]; split
+    · exact h.of_cifs rfl
+    · rename_i e s hl; exact (h.setCif _ _ (createFrame_goodS (h.live (liveH_liveC hl)) e.h n false)).of_cifs rfl
+  | getFrame hh n =>
+    simp only [step]; split
+    · exact h.of_cifs rfl
+    · rename_i e s hl; exact (h.setCif _ _ (by rw [getFrame_fst]; exact h.live (liveH_liveC hl))).of_cifs rfl
+  | frames hh =>
+    simp only [step]; split
+    · exact h
+    · rename_i e s hl; exact h.setCif _ _ (h.live (liveH_liveC hl))
+  | cdestroy hh =>
+    simp only [step]; split
+    · exact h
+    · rename_i e s hl
+      split
+      · exact h
+      · exact (h.setCif _ _ (destroyContainer_goodS (h.live (liveH_liveC hl)) e.h)).of_cifs rfl
+  | code hh => simp only [step]; split <;> exact h
+  | isBlock hh => simp only [step]; split <;> exact h
+  | mkLoop hh cat names =>
+    simp only [step]; split
+    · exact h.of_cifs rfl
+    · rename_i e s hl; exact (h.setCif _ _ (createLoop_goodS (h.live (liveH_liveC hl)) e.h cat names)).of_cifs rfl
+  | catLoop hh cat =>
+    simp only [step]; split
+    · exact h.of_cifs rfl
+    · rename_i e s hl; exact (h.setCif _ _ (by rw [getCategoryLoop_fst]; exact h.live (liveH_liveC hl))).of_cifs rfl
+  | itemLoop hh n =>
+    simp only [step]; split
+    · exact h.of_cifs rfl
+    · rename_i e s hl; exact (h.setCif _ _ (by rw [getItemLoop_fst]; exact h.live (liveH_liveC hl))).of_cifs rfl
+  | loops hh =>
+    simp only [step]; split
+    · exact h
+    · rename_i e s hl
+      have h1 := allLoops_goodS (h.live (liveH_liveC hl)) e.h
+      split
+      · rename_i s1 c1 he; rw [he] at h1; exact h.setCif _ _ h1
+      · rename_i s1 ls he
+        rw [he] at h1
+        refine h.setCif _ _ ?_
+        -- the caller's get_names on each returned handle
+        have : ∀ (ls : List LH) (acc : Store × List (Option Str × Option (List Str))), GoodS acc.1 →
+            GoodS (ls.foldl (fun (acc : Store × List (Option Str × Option (List Str))) l =>
+              match getNames acc.1 l with
+              | (s', .ok ns) => (s', acc.2 ++ [(l.category, some (ns.map (·.2)))])
+              | (s', .error _) => (s', acc.2 ++ [(l.category, none)])) acc).1 := by
+          intro ls
+          induction ls with
+          | nil => intro acc ha; exact ha
+          | cons l ls ih =>
+            intro acc ha
+            simp only [List.foldl_cons]
+            apply ih
+            have hn := getNames_goodS ha l
+            split
+            · rename_i he; rw [he] at hn; exact hn
+            · rename_i he; rw [he] at hn; exact hn
+        exact this ls (s1, []) h1
+  | prune hh =>
+    simp only [step]; split
+    · exact h
+    · rename_i e s hl; exact h.setCif _ _ (prune_goodS (h.live (liveH_liveC hl)) e.h)
+  | getVal hh n =>
+    simp only [step]; split
+    · exact h
+    · rename_i e s hl
+      split
+      · exact h
+      · rename_i nm
+        have hf := getValue_fst s e.h (some nm)
+        split
+        · rename_i s1 v amb he; rw [he] at hf; simp only [] at hf; subst hf; exact h.setCif _ _ (h.live (liveH_liveC hl))
+        · rename_i s1 c1 he; rw [he] at hf; simp only [] at hf; subst hf; exact h.setCif _ _ (h.live (liveH_liveC hl))
+  | setVal hh n v =>
+    simp only [step]; split
+    · exact h
+    · rename_i e s hl; exact h.setCif _ _ (setValue_goodS (h.live (liveH_liveC hl)) e.h n v)
+  | rmItem hh n =>
+    simp only [step]; split
+    · exact h
+    · rename_i e s hl; exact h.setCif _ _ (removeItem_goodS (h.live (liveH_liveC hl)) e.h n)
+  | ldestroy l =>
+    simp only [step]; split
+    · exact h
+    · rename_i e s hl
+      split
+      · exact h
+      · exact (h.setCif _ _ (destroyLoop_goodS (h.live (liveL_liveC hl)) e.h)).of_cifs rfl
+  | getCat l => simp only [step]; split <;> exact h
+  | setCat l cat =>
+    simp only [step]; split
+    · exact h
+    · rename_i e s hl; exact (h.setCif _ _ (setCategory_goodS (h.live (liveL_liveC hl)) e.h cat)).of_cifs rfl
+  | names l =>
+    simp only [step]; split
+    · exact h
+    · rename_i e s hl; exact h.setCif _ _ (getNames_goodS (h.live (liveL_liveC hl)) e.h)
+  | addItem l n v =>
+    simp only [step]; split
+    · exact h
+    · rename_i e s hl
+      split
+      · exact h
+      · exact h.setCif _ _ (addItem_goodS (h.live (liveL_liveC hl)) e.h _ v)
+  | addPkt l p =>
+    simp only [step]; split
+    · exact h
+    · rename_i e s hl; exact h.setCif _ _ (addPacket_goodS (h.live (liveL_liveC hl)) e.h p)
+  | itOpen l =>
+    simp only [step]; split
+    · exact h.of_cifs rfl
+    · rename_i e s hl; exact (h.setCif _ _ (getPackets_goodS (h.live (liveL_liveC hl)) e.h)).of_cifs rfl
+  | itNext i => simp only [step]; split <;> exact h.of_cifs rfl
+  | itUpd i p =>
+    simp only [step]; split
+    · exact h
+    · rename_i e s hl; exact h.setCif _ _ (updatePacket_goodS (h.live (liveI_liveC hl)) e.it p (hat i p rfl e s hl))
+  | itRem i =>
+    simp only [step]; split
+    · exact h
+    · rename_i e s hl; exact (h.setCif _ _ (removePacket_goodS (h.live (liveI_liveC hl)) e.it)).of_cifs rfl
+  | itClose i =>
+    simp only [step]; split
+    · exact h
+    · rename_i e s hl; exact (h.setCif _ _ (closeIter_goodS (h.live (liveI_liveC hl)))).of_cifs rfl
+  | itAbort i =>
+    simp only [step]; split
+    · exact h
+    · rename_i e s hl; exact (h.setCif _ _ (abortIter_goodS (h.live (liveI_liveC hl)))).of_cifs rfl
+
+def UpdatesAttached : World → List Op → Prop
+  | _, [] => True
+  | w, op :: ops => UpdateAttached w op ∧ UpdatesAttached (step w op).1 ops
+
+/-- PacketsTotal is an invariant of all API histories whose iterator updates go through attached iterators -/
+theorem C04_packets_total : ∀ (ops : List Op) (w : World), WGood w → UpdatesAttached w ops → WGood (run w ops).1
+  | [], w, h, _ => h
+  | op :: ops, w, h, ha => by
+    unfold run
+    exact C04_packets_total ops _ (C04_packets_total_step w op h ha.1) ha.2
+
+theorem C04_packets_total_init : WGood {} := WGood.empty
+
+/-- what it says about one CIF -/
+theorem C04_packets_total_reads (w : World) (h : WGood w) (c : Nat) (s : Store) (hs : w.cifs.getD c none = some s) :
+    ∀ x ∈ s.db.loops, ∀ r ∈ s.db.loopRows x.cid x.loopNum, ∀ j ∈ s.db.loopItems x.cid x.loopNum, s.db.hasValue x.cid j.name r = true :=
+  (h c s hs).db.total
+
+
+-- ---- failure-code agreement with Spec/DataModel (loop level) ---------------------------------------------------------------------
+
+/-- cif_loop_set_category returns the documented model's code — CIF_RESERVED_LOOP exactly when the loop is the scalar loop or ""
+    is asked for, CIF_OK otherwise, nothing else — for a handle that names an existing loop and carries its stored category -/
+theorem C04_code_set_category (s : Store) (l : LH) (cat : Option Str) (x : LoopRow) (h : Inv s.db) (hx : x ∈ s.db.loops)
+    (hk : x.cid = l.cid ∧ x.loopNum = l.loopNum) (hcat : l.category = x.category) :
+    (Store.setCategory s l cat).2.2 = ((absLoop s.db x).specSetCategory cat).map (fun _ => ()) :=
+  setCategory_code s l cat x h hx hk hcat
+
+/-- cif_loop_add_packet returns the documented model's code: CIF_RESERVED_LOOP for the scalar loop that has its packet,
+    CIF_WRONG_LOOP for an entry that is not an item of the loop, CIF_OK otherwise (CIF_INVALID_PACKET for the empty packet is
+    decided before the body) — and no other code.  Hypotheses beyond `Inv`: the handle names an existing loop; `RowsBelow`; the
+    scalar loop's last_row_num counts its packet; the packet's keys are distinct (a packet is a map); names stored normalised. -/
+theorem C04_code_add_packet (norm : Str → Str) (d : Db) (l : LH) (pkt : List (Str × V)) (x : LoopRow) (h : Inv d) (hx : x ∈ d.loops)
+    (hk : x.cid = l.cid ∧ x.loopNum = l.loopNum) (hrb : RowsBelow d l.cid l.loopNum)
+    (hsc : x.category = some [] → (1 ≤ x.lastRowNum ↔ d.loopRows x.cid x.loopNum ≠ []))
+    (hnd : pkt.Pairwise (fun a b => a.1 ≠ b.1)) (hn : ItemsNormOK norm d) (hne : pkt ≠ []) :
+    (addPacketBody l pkt d).map (fun _ => ()) = ((absLoop d x).specAddPacket norm pkt).map (fun _ => ()) :=
+  addPacketBody_code norm d l pkt x h hx hk hrb hsc hnd hn hne
+
+/-- cif_container_remove_item (valid name, no transaction open) returns the documented model's code: CIF_NOSUCH_ITEM exactly when
+    no loop of the container has the item, CIF_OK otherwise -/
+theorem C04_code_remove_item (norm : Str → Str) (s : Store) (hd : CH) (n : Name) (code : Str) (fs : List Container) (h : Inv s.db)
+    (hv : n.valid = true) (hac : s.autocommit = true) (hn : ItemsNormOK norm s.db) :
+    (Store.removeItem s hd (some n)).2 = ((Container.mk code fs (absLoops s.db hd.id)).specRemoveItem norm n.key).map (fun _ => ()) :=
+  removeItem_code norm s hd n code fs h hv hac hn
 
 end CifModel
